@@ -67,6 +67,7 @@ structure ManifestFacts where
   examples : List (String × String) := []    -- shipped example description ↦ its `name:`
   cliNamePatterns : List (String × String) := []   -- output file = prefix ++ name ++ suffix (floogen/cli.py)
   cliRenderBeforeWrite : Bool := false       -- both render calls precede every open()/print() in render_sources
+  makeOutDir : String := "generated"         -- default FLOOGEN_OUT_DIR of the Makefile, relative to the repository
   deriving Repr, Inhabited
 
 structure PyFacts where
